@@ -248,7 +248,7 @@ def main():
         sys.exit(3)
     modname = "harness." + PROPS[pid]
     module = importlib.import_module(modname)
-    harnesses = [h for h in module.HARNESSES if (a.only is None or h.fn == a.only)]
+    harnesses = [h for h in module.HARNESSES if (a.only is None or h.fn in a.only.split(","))]
     harness_errors = []
     # targets must exist in /repo (a rename is an error, not a silent pass)
     for h in harnesses:
@@ -407,6 +407,11 @@ def main():
         if tier == "thorough":      # keep the last thorough run next to the (usually quick) evidence file
             with open(os.path.join(VERIF, "evidence", f"{pid}.thorough.json"), "w") as f:
                 json.dump(ev, f, indent=1)
+    if not a.no_evidence and a.only is not None and tier == "thorough":
+        # a thorough run restricted to some harnesses is kept as a partial record; it never replaces evidence/<id>.json
+        ev["partial_only"] = a.only.split(",")
+        with open(os.path.join(VERIF, "evidence", f"{pid}.thorough.partial.json"), "w") as f:
+            json.dump(ev, f, indent=1)
     print(f"{pid} {tier}: cells={obligations} confirmed={discharged} inconclusive={inconclusive} "
           f"violations={len(violations)} harness_errors={len(harness_errors)} paths={tot['paths']} "
           f"z3_checks={tot['z3_checks']} z3_s={tot['z3_s']:.1f} wall={wall:.0f}s")
